@@ -82,9 +82,13 @@ def ex_flowdemux(ch, cfg, res):
     nouts = ch.choose(4, lambda c: "len(outs)=%d" % c, free=True)
     dflt = ch.choose(2, lambda c: "default %s" % ("present" if c else "absent"), free=True)
     flow = ch.choose(5, lambda c: "flow %d" % c, free=True)
+    grown = ch.choose(3, lambda c: "outputs appended after construction: %d" % c, free=True)
     log = []
     outs = [Rec("o%d" % i, log) for i in range(nouts)]
     d = FlowDemux(outs, Rec("default", log) if dflt else None)
+    for i in range(grown):
+        d.outs.append(Rec("o%d" % (nouts + i), log))      # the output list is public and may be extended later (as switches add ports)
+    nouts += grown
     p = Packet(0, 1, 0, flow_id=flow)
     if not guarded(res, "FlowDemux", lambda: d.put(p)):
         return ("raise",)
@@ -231,17 +235,28 @@ def ex_split(ch, cfg, res):
     width = 2 if n <= 3 else 3
     conn = [ch.choose(2, lambda c, i=i: "output %d %s" % (i, "connected" if c else "unconnected"), free=True) for i in range(width)]
     log = []
+    rewrite = ch.choose(2, lambda c: "element on a copy output rewrites the header inside put: %s" % bool(c), free=True)
+
+    class Rewriter(Rec):
+        """a downstream element that rewrites header fields of what it receives, synchronously inside put"""
+
+        def put(self, pkt):
+            seen_fields.append((self.name, (pkt.packet_id, pkt.flow_id, pkt.src, pkt.dst, pkt.size, pkt.time, pkt.payload)))
+            Rec.put(self, pkt)
+            if rewrite and self.name != "o0":
+                pkt.flow_id = 55; pkt.dst = "rewritten"
+    seen_fields = []
     if n == 2:
         sp = Splitter()
         if conn[0]:
-            sp.out1 = Rec("o0", log)
+            sp.out1 = Rewriter("o0", log)
         if conn[1]:
-            sp.out2 = Rec("o1", log)
+            sp.out2 = Rewriter("o1", log)
     else:
         sp = NSplitter(width)
         for i in range(width):
             if conn[i]:
-                sp.outs[i] = Rec("o%d" % i, log)
+                sp.outs[i] = Rewriter("o%d" % i, log)
     p = Packet(3, 5, 9, src="s", dst="d", flow_id=1, payload="x")
     if not guarded(res, cls, lambda: sp.put(p)):
         return ("raise", n, tuple(conn))
@@ -250,6 +265,15 @@ def ex_split(ch, cfg, res):
     got = [nm for nm, q in log]
     want = ["o%d" % i for i in range(width) if conn[i]]
     fields = lambda q: (q.packet_id, q.flow_id, q.src, q.dst, q.size, q.time, q.payload)
+    orig_fields = (9, 1, "s", "d", 5, 3, "x")
+    for nm, f in seen_fields:
+        if f != orig_fields:
+            res.bad("C18.split", cls + ":output-received-a-packet-another-output-had-already-rewritten", "%s received %r" % (nm, f))
+            return (n, tuple(conn), tuple(got), rewrite)
+    if rewrite:
+        if p.flow_id != 1 or p.dst != "d":
+            res.bad("C18.split", cls + ":rewriting-a-copy-changed-the-original", "original now flow %r dst %r" % (p.flow_id, p.dst))
+        return (n, tuple(conn), tuple(got), rewrite)
     if sorted(got) != want:
         res.bad("C18.split", cls + ":wrong-outputs", "connected %s, delivered %s" % (want, got))
         return (n, tuple(conn), tuple(got))
